@@ -8,6 +8,11 @@ use std::time::Instant;
 
 pub const VERIF_DIR: &str = "/verif";
 
+/// where evidence and replay files go: /verif, unless a scratch pipeline (seeded/recheck_all.sh) redirects them
+pub fn out_dir() -> String {
+    std::env::var("QZV_OUT_DIR").unwrap_or_else(|_| VERIF_DIR.to_string())
+}
+
 /// One observed property violation.
 #[derive(Clone, Debug)]
 pub struct Violation {
@@ -190,7 +195,7 @@ impl Report {
         let mut known_hit = 0u64;
         let mut lines = vec![];
         let mut vio_summary = vec![];
-        let dir = format!("{}/replays/{}", VERIF_DIR, self.id);
+        let dir = format!("{}/replays/{}", out_dir(), self.id);
         for (sig, (count, v)) in &self.total.viols {
             let k = known.iter().find(|k| k.property == self.id && k.status == "known" && sig_matches(&k.signature, sig));
             let mut listed = k.is_some();
@@ -265,8 +270,8 @@ impl Report {
             "known_findings_reproduced": known_hit,
             "machinery_errors": self.machinery_errors,
         });
-        let _ = std::fs::create_dir_all(format!("{}/evidence", VERIF_DIR));
-        std::fs::write(format!("{}/evidence/{}.json", VERIF_DIR, self.id), serde_json::to_string_pretty(&ev).unwrap()).expect("cannot write evidence");
+        let _ = std::fs::create_dir_all(format!("{}/evidence", out_dir()));
+        std::fs::write(format!("{}/evidence/{}.json", out_dir(), self.id), serde_json::to_string_pretty(&ev).unwrap()).expect("cannot write evidence");
         for l in &lines {
             println!("{}", l);
         }
@@ -367,7 +372,7 @@ pub fn watchdog_start(id: &str, tier: &str, horizon_s: u64) {
             if let Some((i, s)) = w.slots.iter().enumerate().filter(|(_, s)| s.0.load(Ordering::Relaxed) != 0).min_by_key(|(_, s)| s.0.load(Ordering::Relaxed)) {
                 let outer = s.1.load(Ordering::Relaxed);
                 let inner = s.2.load(Ordering::Relaxed);
-                let dir = format!("{}/replays/{}", VERIF_DIR, id);
+                let dir = format!("{}/replays/{}", out_dir(), id);
                 let _ = std::fs::create_dir_all(&dir);
                 let path = format!("{}/hang-{}-{}.json", dir, outer, inner);
                 let body = json!({"property": id, "signature": "nontermination|runaway-allocation", "detail": format!("resident set {:.1} GB exceeds the cap of {} GB; longest-running subject call: worker {} for {} s", rss_gb, cap_gb, i, now.saturating_sub(s.0.load(Ordering::Relaxed))), "witness": {"kind": "index", "outer": outer, "inner": inner}});
@@ -384,7 +389,7 @@ pub fn watchdog_start(id: &str, tier: &str, horizon_s: u64) {
             if st != 0 && now.saturating_sub(st) > horizon_s {
                 let outer = s.1.load(Ordering::Relaxed);
                 let inner = s.2.load(Ordering::Relaxed);
-                let dir = format!("{}/replays/{}", VERIF_DIR, id);
+                let dir = format!("{}/replays/{}", out_dir(), id);
                 let _ = std::fs::create_dir_all(&dir);
                 let path = format!("{}/hang-{}-{}.json", dir, outer, inner);
                 let body = json!({"property": id, "signature": "nontermination", "detail": format!("subject call did not return within {} s (worker {})", horizon_s, i), "witness": {"kind": "index", "outer": outer, "inner": inner}});
